@@ -1621,7 +1621,7 @@ func (x *Exec) selectOp(st *State, fr *Frame, in *ssa.Select) []*State {
 				elems = append(elems, rv)
 				k++
 				if si == idx {
-					x.chanEvent(s, "recv", x.val(s, f, sst.Chan), nil, []Value{rv})
+					x.chanEvent(s, "recv", x.val(s, f, sst.Chan), nil, []Value{rv, recvOk})
 				}
 			} else if si == idx {
 				x.chanEvent(s, "send", x.val(s, f, sst.Chan), []Value{x.val(s, f, sst.Send)}, nil)
